@@ -36,8 +36,8 @@ def assign_to(s, target_text):
     return isinstance(s, ast.Assign) and any(norm(t) == target_text for t in s.targets)
 
 
-def rule_groups(ctx):
-    ctx.rule('C04.groups', 'groups are created scalar, trigger, audio, control with Control.ir / TrigControl.kr / '
+def rule_groups(ctx, rid='C04.groups'):
+    ctx.rule(rid, 'groups are created scalar, trigger, audio, control with Control.ir / TrigControl.kr / '
                            'AudioControl.ar / (Lag)Control.kr; the running index is read from _control_index before the '
                            'unit is created and advances by len(as_list(default_value)) per name')
     repo = ctx.repo
@@ -53,12 +53,12 @@ def rule_groups(ctx):
                 cp = U.compare_parts(lc.generators[0].ifs[0])
                 if cp and norm(cp[0]).endswith('.rate') and cp[1] is ast.Eq and U.is_str(cp[2]):
                     groups[s.targets[0].id] = cp[2].value
-    ctx.require(len(groups) >= 4, 'C04.groups', f'cannot bind the rate groups in _build_controls: {groups}')
+    ctx.require(len(groups) >= 4, rid, f'cannot bind the rate groups in _build_controls: {groups}')
     helper = None
     for s in f.node.body:
         if isinstance(s, ast.FunctionDef):
             helper = s
-    ctx.require(helper is not None, 'C04.groups', 'group-building helper vanished')
+    ctx.require(helper is not None, rid, 'group-building helper vanished')
     hname = helper.name
     seq = []
     for s in f.node.body:
@@ -69,15 +69,19 @@ def rule_groups(ctx):
             seq.append((groups[s.test.id], 'kr-block', None))
     want = [('scalar', 'iou.Control', 'ir'), ('trigger', 'iou.TrigControl', 'kr'), ('audio', 'iou.AudioControl', 'ar'),
             ('control', 'kr-block', None)]
-    ctx.ob('C04.groups', f'{mod.name}:SynthDef._build_controls:group-order', seq == want,
+    ctx.ob(rid, f'{mod.name}:SynthDef._build_controls:group-order', seq == want,
            f'groups must be created as {want}; found {seq}', f.node, mod)
+
+    cn_cls = repo.cls('sc3.synth.ugens.inout:ControlName')
+    chp = cn_cls.methods.get('channels')
+    chan_ok = chp is not None and 'property' in chp.decorators and full(chp.node).endswith('return len(utl.as_list(self.default_value))')
 
     def check_block(block_stmts, tag, cns_name, node):
         ss = [s for b in block_stmts for s in [b] + [x for x in walk_local_ordered(b) if isinstance(x, ast.stmt)]]
         i_idx = first(ss, lambda s: assign_to(s, 'index') and norm(s.value) == 'self._control_index')
         i_new = first(ss, lambda s: isinstance(s, ast.Assign) and norm(s.targets[0]) == 'ctrl_ugens' and
                       isinstance(s.value, ast.Call) and ('getattr(' in norm(s.value) or 'iou.' in norm(s.value.func)))
-        ctx.ob('C04.groups', f'{mod.name}:SynthDef._build_controls:{tag}:index-before-create', 0 <= i_idx < i_new,
+        ctx.ob(rid, f'{mod.name}:SynthDef._build_controls:{tag}:index-before-create', 0 <= i_idx < i_new,
                'the first slot of the group must be read from _control_index before the control unit advances it', node, mod)
         loops = [s for s in ss if isinstance(s, ast.For) and norm(s.iter) == f'enumerate({cns_name})']
         ok = False
@@ -85,29 +89,32 @@ def rule_groups(ctx):
             lb = [norm(x) for x in loops[0].body]
             tv = loops[0].target.elts[1].id if isinstance(loops[0].target, ast.Tuple) else None
             iv = loops[0].target.elts[0].id if isinstance(loops[0].target, ast.Tuple) else None
-            need = [f'{tv}.index = index', f'index += len(utl.as_list({tv}.default_value))',
-                    f'arguments[{tv}.arg_num] = ctrl_ugens[{iv}]']
-            ok = all(n in lb for n in need) and lb.index(need[0]) < lb.index(need[1])
-        ctx.ob('C04.groups', f'{mod.name}:SynthDef._build_controls:{tag}:slot-accounting', ok,
+            adv = [x for x in lb if x.startswith('index += ')]
+            size_forms = {f'index += len(utl.as_list({tv}.default_value))'}
+            if chan_ok:
+                size_forms.add(f'index += {tv}.channels')
+            need = [f'{tv}.index = index', f'arguments[{tv}.arg_num] = ctrl_ugens[{iv}]']
+            ok = all(n in lb for n in need) and len(adv) == 1 and adv[0] in size_forms and lb.index(need[0]) < lb.index(adv[0])
+        ctx.ob(rid, f'{mod.name}:SynthDef._build_controls:{tag}:slot-accounting', ok,
                'each name gets index, index advances by its number of values, its argument is the matching control output',
                node, mod)
         vals = [s for s in ss if isinstance(s, ast.Expr) and norm(s.value) == 'values.append(cn.default_value)']
         flat = any('utl.flat(values)' in norm(s) for s in ss if isinstance(s, ast.Assign) and norm(s.targets[0]) == 'ctrl_ugens')
         resh = any(norm(s) == 'ctrl_ugens = utl.reshape_like(ctrl_ugens, values)' for s in ss)
-        ctx.ob('C04.groups', f'{mod.name}:SynthDef._build_controls:{tag}:values', bool(vals) and flat and resh,
+        ctx.ob(rid, f'{mod.name}:SynthDef._build_controls:{tag}:values', bool(vals) and flat and resh,
                'defaults are collected in name order, flattened for the unit and the outputs reshaped like the defaults',
                node, mod)
     cn_param = helper.args.args[0].arg
     check_block(helper.body, 'ita', cn_param, helper)
     krblk = [s for s in f.node.body if isinstance(s, ast.If) and isinstance(s.test, ast.Name) and groups.get(s.test.id) == 'control']
-    ctx.require(len(krblk) == 1, 'C04.groups', 'control-rate block vanished')
+    ctx.require(len(krblk) == 1, rid, 'control-rate block vanished')
     check_block(krblk[0].body, 'kr', krblk[0].test.id, krblk[0])
     src = full(krblk[0])
     ok = 'if any((x != 0 for x in lags)): ctrl_ugens = iou.LagControl.kr(utl.flat(values), lags) else: ctrl_ugens = iou.Control.kr(utl.flat(values))' in src
-    ctx.ob('C04.groups', f'{mod.name}:SynthDef._build_controls:kr:lag-choice', ok,
+    ctx.ob(rid, f'{mod.name}:SynthDef._build_controls:kr:lag-choice', ok,
            'lagged control-rate parameters use LagControl.kr(values, lags), otherwise Control.kr(values)', krblk[0], mod)
     ok = 'lags.extend(utl.wrap_extend(utl.as_list(cn.lag), valsize))' in src and 'lags.append(cn.lag)' in src
-    ctx.ob('C04.groups', f'{mod.name}:SynthDef._build_controls:kr:lags-per-slot', ok,
+    ctx.ob(rid, f'{mod.name}:SynthDef._build_controls:kr:lags-per-slot', ok,
            'one lag per slot: array defaults wrap-extend their lag', krblk[0], mod)
     # the _add_X functions
     want = {'_add_ir': 'scalar', '_add_tr': 'trigger', '_add_ar': 'audio', '_add_kr': 'control'}
@@ -118,12 +125,12 @@ def rule_groups(ctx):
             and norm(cs[0].args[3]) == g.params[2] and norm(cs[0].args[4]) == 'len(self._control_names)'
         if name == '_add_kr':
             ok = ok and len(cs[0].args) == 6 and norm(cs[0].args[5]) == g.params[3]
-        ctx.ob('C04.groups', f'{mod.name}:SynthDef.{name}', ok,
+        ctx.ob(rid, f'{mod.name}:SynthDef.{name}', ok,
                f"{name} must record ControlName(name, ., {rate!r}, value, len(self._control_names)[, lag])", g.node, mod)
     g = sd.methods['_add_control_name']
     src = full(g.node)
     p = g.params[1]
-    ctx.ob('C04.groups', f'{mod.name}:SynthDef._add_control_name', f'self._control_names.append({p})' in src and
+    ctx.ob(rid, f'{mod.name}:SynthDef._add_control_name', f'self._control_names.append({p})' in src and
            f'self._all_control_names.append({p})' in src, 'a name is recorded in both the local and the global table', g.node, mod)
 
 
@@ -216,6 +223,17 @@ def rule_names(ctx):
     ok = 'varcontrols = self._controls[:]' in vsrc and 'index = cn.index' in vsrc and 'varcontrols[index + i] = val' in vsrc
     ctx.ob('C04.names', f'{mod.name}:SynthDef.{vf.name}:variant-block', ok,
            'a variant block is a copy of the defaults overridden at the named control slots', vf.node, mod)
+    vloops = [l for l in walk_local(vf.node) if isinstance(l, ast.For) and norm(l.iter) in ('self._variants.items()', 'self.variants.items()')]
+    fresh = False
+    if len(vloops) == 1:
+        copies = [x for x in walk_local(ast.Module(body=vloops[0].body, type_ignores=[])) if isinstance(x, ast.Assign) and
+                  norm(x.value) in ('self._controls[:]', 'list(self._controls)', 'self._controls.copy()')]
+        outside = [x for x in walk_local(vf.node) if isinstance(x, ast.Assign) and norm(x.value) in ('self._controls[:]', 'list(self._controls)', 'self._controls.copy()')
+                   and not any(x is y for y in copies)]
+        fresh = len(copies) == 1 and not outside and any(x is copies[0] for x in vloops[0].body)
+    ctx.ob('C04.names', f'{mod.name}:SynthDef.{vf.name}:fresh-copy-per-variant', fresh,
+           'every variant block must start from a fresh copy of the control defaults taken inside the per-variant loop (a copy shared by the '
+           'variants makes later blocks inherit the overrides of earlier ones)', vf.node, mod)
     ok = "varname = self._name + '.' + varname" in vsrc
     ctx.ob('C04.names', f'{mod.name}:SynthDef.{vf.name}:variant-name', ok, 'variant name is defname.variant', vf.node, mod)
     # no early exit from the counted variant loop (shared with C02.count)
@@ -413,6 +431,10 @@ MUTANTS = [
          old="func).parameters)[len(utl.as_list(prepend)):]", new="func).parameters)"),
     dict(rule='C04.defaults', name='defaults chosen by truthiness', file='sc3/synth/synthdef.py',
          old="                if value is not None:\n                    new_values.append(value)\n                else:", new="                if value:\n                    new_values.append(value)\n                else:"),
+    dict(rule='C04.names', name='control copy hoisted out of the variant loop', file='sc3/synth/synthdef.py',
+         old="            varcontrols = self._controls[:]\n            for cname, values in pairs.items():", new="            for cname, values in pairs.items():",
+         edits=[('sc3/synth/synthdef.py', "            varcontrols = self._controls[:]\n            for cname, values in pairs.items():", "            for cname, values in pairs.items():"),
+                ('sc3/synth/synthdef.py', "        for varname, pairs in self._variants.items():\n            varname = self._name + '.' + varname\n            if len(varname) > 32:", "        varcontrols = self._controls[:]\n        for varname, pairs in self._variants.items():\n            varname = self._name + '.' + varname\n            if len(varname) > 32:")]),
 ]
 
 REPAIRS = []
